@@ -633,7 +633,7 @@ static void run_case(uint64_t idx, Ctx& cx) {
             if (c.disableDefRes && !supplied[i]) { cx.count(got ? "refs_permitted_but_defres_disabled_fetched" : "refs_blocked_by_disableDefaultEntityResolution"); nontrivial = true; }
             else if (got) { cx.count("refs_permitted_and_fetched"); cx.count(std::string("fetched:") + ClsName[r.cls]); nontrivial = true; if (r.depth) cx.count("nested_resolved_against_container_base"); }
             else if (c.stdUri && !c.urlBase) cx.count("refs_permitted_not_fetched:path-base-rejected-under-standard-uri-conformant");
-            else { cx.count("refs_permitted_not_fetched:other"); cx.count(std::string("refs_permitted_not_fetched:other:") + ClsName[r.cls] + (o.fatals ? ":fatal" : ":nofatal")); if (getenv("C19_DEBUG_NOTFETCHED")) if (FILE* df = fopen(getenv("C19_DEBUG_NOTFETCHED"), "a")) fprintf(df, "NOTFETCHED %llu %s | %s | %s\n", (unsigned long long)idx, ClsName[r.cls], word_str(word).c_str(), c.str().c_str()), fclose(df); }
+            else { cx.count("refs_permitted_not_fetched:other"); cx.count(std::string("refs_permitted_not_fetched:other:") + ClsName[r.cls] + (o.fatals ? ":fatal" : ":nofatal")); }
         } else {
             nontrivial = true;
             cx.count("refs_forbidden_and_untouched");
@@ -646,7 +646,6 @@ static void run_case(uint64_t idx, Ctx& cx) {
             else if (r.cls == C_GE_DECLONLY) cx.count("forbidden_by:never-referenced");
             else if (r.cls == C_GE_ATTR) cx.count("forbidden_by:wfc-no-external-entity-in-attribute");
             else cx.count("forbidden_by:parent-not-fetched");
-            if (r.cls == C_SCHEMADTD) {}
         }
         if (r.cls == C_SCHEMADTD && accessed[i] && !c.loadExtDTD && c.val == 0) cx.count("observation:schema_doc_dtd_loaded_with_loadExternalDTD_off_validation_off");
     }
